@@ -322,8 +322,6 @@ def rng_body(t):
     generator.  A tracer that draws from it as well changes what a seeded program computes."""
     rate = RNG_RATES[t.take(len(RNG_RATES))]
     ncalls = 1 + t.take(3)
-    if listed("C03-sampling-draws-from-global-rng"):
-        ASSUME(not rate)  # the listed finding: a configured sample rate >= 1 (no rate: the tracer must not draw at all)
     used = _rng_run(rate, ncalls)
     return check(not used, lambda: f"sample_rate={rate!r}, {ncalls} call(s): the tracer used the process-wide random generator "
                                    f"(random.{used[0]}, {len(used)} time(s)): a seeded program gets other random numbers when traced")
